@@ -73,6 +73,7 @@ def _copy_h5_element(
                     current_location,
                     dtype=src_dataset.dtype,
                     shape=src_dataset.shape,
+                    maxshape=src_dataset.maxshape,
                     chunks=src_dataset.chunks,
                     compression=src_dataset.compression,
                     compression_opts=src_dataset.compression_opts)
